@@ -27,20 +27,25 @@ ASSUME_X = [
 PLAN = {
     "C01": {
         "mc": [MC_EXCHANGE, MC_READER],
-        "families": [fam("x_small"), fam("x_large"), REPLAY_READER],
+        "families": [fam("x_small"), fam("x_large"), REPLAY_READER, fam("x_large", crate="harness-min")],
+        "crates": ["harness", "harness-min"],
         "rule": "scenario = (script, segmentation, caller read schedule); small scripts enumerated exhaustively (payload<=4, all chunkings, every single cut point), large ones random around 8 KiB/64 KiB; distinct = distinct scenario id",
         "assumptions": ASSUME_X,
     },
     "C02": {
         "mc": [MC_EXCHANGE, MC_READER],
-        "families": [fam("x_fault"), fam("x_large_fault"), REPLAY_READER],
+        "families": [fam("x_fault"), fam("x_large_fault"), REPLAY_READER, fam("x_large_fault", crate="harness-min")],
+        "crates": ["harness", "harness-min"],
         "rule": "every small script cut / failed (fatal and transient I/O errors) at every body offset, malformed chunk framing at every chunk, then reads continue after the error; large random ones with boundary-biased fault offsets",
         "assumptions": ASSUME_X,
     },
     "C03": {
         "mc": [],
         "families": [{"gen": ("tlc", {"name": "framing-table", "tla": "MC_Framing.tla", "cfg": "MC_Framing.cfg", "cfg_thorough": "MC_Framing_thorough.cfg", "workers": 8}),
-                      "runner": "exchange", "trace": "Trace_Exchange", "attribute_all": True}],
+                      "runner": "exchange", "trace": "Trace_Exchange", "attribute_all": True},
+                     {"gen": ("tlc", {"name": "framing-table-minimal-build", "tla": "MC_Framing.tla", "cfg": "MC_Framing.cfg", "workers": 8}),
+                      "runner": "exchange", "trace": "Trace_Exchange", "attribute_all": True, "crate": "harness-min"}],
+        "crates": ["harness", "harness-min"],
         "rule": "rows of the RFC 9112 6.3 decision table enumerated by TLC (method x status x Content-Length lists x Transfer-Encoding lists x trailing octets); each row is a real exchange whose delivered octets are judged",
         "assumptions": ASSUME_X,
     },
@@ -66,7 +71,12 @@ PLAN = {
         "mc": [],
         "families": [{"gen": ("tlc", {"name": "coding-table", "tla": "MC_Coding.tla", "cfg": "MC_Coding.cfg", "workers": 8}),
                       "runner": "exchange", "trace": "Trace_Exchange", "attribute_all": True},
-                     fam("x_coded", attribute_all=True)],
+                     fam("x_coded", attribute_all=True),
+                     # the client built without the compression feature: a declared coding is left alone
+                     {"gen": ("tlc", {"name": "coding-table-minimal-build", "tla": "MC_Coding.tla", "cfg": "MC_Coding.cfg", "workers": 8}),
+                      "runner": "exchange", "trace": "Trace_Exchange", "attribute_all": True, "crate": "harness-min"},
+                     fam("x_coded", attribute_all=True, crate="harness-min")],
+        "crates": ["harness", "harness-min"],
         "rule": "coding selection table enumerated by TLC (method x Content-Encoding tokens x Transfer-Encoding tokens x framing, any letter case, lists), each row a real exchange with the declared coding applied; streams: payload classes x levels 0..9 x gzip header options x framings x segmentations x read sizes; every truncation offset of small streams, boundary-biased of large; each of the 64 gzip trailer bits flipped",
         "assumptions": ASSUME_X + ["deflate = raw RFC 1951 stream (what the repository's tests send)", "inflate itself is opaque: its output is compared with the known payload in the projection"],
     },
@@ -75,7 +85,10 @@ PLAN = {
                {"name": "streaming-decoder-as-found(no spill buffer)", "tla": "StreamDecoder.tla", "cfg": "StreamDecoder_asfound.cfg", "workers": 4, "expect_violation": "NeverFails"}],
         "families": [{"gen": ("tlc", {"name": "charset-table", "tla": "MC_Charset.tla", "cfg": "MC_Charset.cfg", "workers": 2}),
                       "runner": "charset", "trace": "Trace_Charset"},
-                     fam("charset_split", runner="charset", trace="Trace_Charset")],
+                     fam("charset_split", runner="charset", trace="Trace_Charset"),
+                     # the client built without the charsets feature: text() = lossy UTF-8 whatever the header says
+                     fam("x_text_min", crate="harness-min")],
+        "crates": ["harness", "harness-min"],
         "rule": "charset-source table enumerated by TLC (Content-Type shape x request default x session default x reading call); each row expanded over all charsets of the decoder library, label spellings (upper/lower/mixed case, aliases), unknown labels, bodies with valid / malformed / truncated multi-byte sequences, segmentations and reader buffer sizes; plus every cut offset of multi-byte texts in 12 charsets incl. BOM-prefixed (streaming half)",
         "assumptions": ASSUME_X + ["code-point tables are encoding_rs's: the reference is encoding_rs whole-buffer decoding in the projection", "which source was used is observed through the decoded string (bodies are chosen to decode differently under the candidate charsets)"],
         "replay_runner": "charset", "replay_trace": "Trace_Charset",
@@ -86,10 +99,14 @@ PLAN = {
         "families": [{"gen": ("tlc", {"name": "write-sequences", "tla": "RequestWrite.tla", "cfg": "RequestWrite.cfg", "cfg_thorough": "RequestWrite_thorough.cfg", "workers": 8}),
                       "runner": "loop", "trace": "Trace_SendLoop"},
                      fam("c07_req", runner="loop", trace="Trace_SendLoop"),
+                     fam("c07_req", runner="loop", trace="Trace_SendLoop", crate="harness-min"),
+                     {"gen": ("tlc", {"name": "default-headers-minimal-build", "tla": "MC_Defaults.tla", "cfg": "MC_Defaults.cfg", "workers": 8}),
+                      "runner": "loop", "trace": "Trace_SendLoop", "crate": "harness-min"},
                      {"gen": ("tlc", {"name": "default-headers", "tla": "MC_Defaults.tla", "cfg": "MC_Defaults.cfg", "workers": 8}),
                       "runner": "loop", "trace": "Trace_SendLoop"},
                      {"gen": ("tlc", {"name": "hop-chains", "tla": "MC_Hops.tla", "cfg": "MC_Hops.cfg", "cfg_thorough": "MC_Hops_thorough.cfg", "workers": 8}),
                       "runner": "loop", "trace": "Trace_SendLoop"}],
+        "crates": ["harness", "harness-min"],
         "rule": "RequestWrite.tla (BufWriter/ChunkedWriter model) checked by TLC for all sequences of up to 4 write calls with sizes {0,1,8191,8192,8193}, each sequence replayed through a user-defined Body (chunked and known-length); seeded random requests over methods (incl. extension tokens), paths with unicode/percent/space, param(s) with &=#+% and non-ASCII, header names/values over their alphabets, set and append, basic/bearer credentials, all body kinds and sizes around 8 KiB; body kinds through redirect chains",
         "assumptions": ASSUME_X + ["the bytes the client wrote are decoded by httparse plus a hand-written strict chunked decoder and multipart splitter (independent parsers) inside the projection"],
         "replay_runner": "loop", "replay_trace": "Trace_SendLoop",
